@@ -427,6 +427,12 @@ pub fn probe(img: &[u8], path: &Path) -> String {
                     if size_reason { "size" } else { "metadata / signature" }
                 );
             }
+            // third independent reason: the (valid) metadata records another device size than the file has,
+            // and the store says so itself (InvalidDevice is what the size checks return)
+            let recorded_size_reason = l::current_meta(img).is_some_and(|(m, _)| m.device_size != img.len() as u64);
+            if after != before && recorded_size_reason && name == "InvalidDevice" {
+                return "BAD open failed with InvalidDevice on a file whose metadata records a different device size (a size reason) but modified the file".to_string();
+            }
             return format!("ok err {name}");
         }
         Ok(Ok(s)) => s,
